@@ -95,7 +95,7 @@ def run_tlc(spec_dir, module, cfg, out_path, workers=8, timeout=900, simulate=No
             seed=None, env=None, jvm=None, extra=None, metadir=None, coverage=False):
     """Run TLC on spec_dir/module with spec_dir/cfg; full output goes to out_path."""
     metadir = metadir or (out_path + ".meta")
-    cmd = ["java", "-XX:+UseParallelGC"] + (jvm or []) + ["-cp", TLA_CP, "tlc2.TLC",
+    cmd = ["java", "-XX:+UseParallelGC", "-DTLA-Library=" + os.path.join(VERIF, "spec", "lib")] + (jvm or []) + ["-cp", TLA_CP, "tlc2.TLC",
            "-workers", str(workers), "-metadir", metadir, "-cleanup", "-noGenerateSpecTE",
            "-config", cfg]
     if coverage:
